@@ -64,13 +64,16 @@ pub struct Mix {
     pub equality: bool,
     pub age: i64,
     pub shuffle: bool,
+    /// the scalar claim `ssn` of every credential is the zero scalar (the value whose message term vanishes)
+    pub zero_ssn: bool,
 }
 
 impl Mix {
     pub fn describe(&self) -> String {
         format!(
-            "creds={} claims={} disclosed={:?} rev={} mem={} com={:?} range={:?} verenc={:?} ved={:?} eq={} age={} shuffled={}",
-            self.n_creds, self.n_claims, self.disclosed, self.revocation, self.membership, self.commitment, self.range, self.verenc, self.ved, self.equality, self.age, self.shuffle
+            "creds={} claims={} disclosed={:?} rev={} mem={} com={:?} range={:?} verenc={:?} ved={:?} eq={} age={} shuffled={}{}",
+            self.n_creds, self.n_claims, self.disclosed, self.revocation, self.membership, self.commitment, self.range, self.verenc, self.ved, self.equality, self.age, self.shuffle,
+            if self.zero_ssn { " ssn=0" } else { "" }
         )
     }
     pub fn random(rng: &mut Rng, heavy: bool) -> Mix {
@@ -164,7 +167,10 @@ impl<S: ShortGroupSignatureScheme> Scn<S> {
             let name = if mix.equality || c == 0 { shared_name.to_string() } else { format!("Holder {}", c) };
             let cid = format!("cred-{}-{}", c, rng.below(1 << 30));
             let age = if c == 0 { mix.age } else { rng.range(-10, 90) };
-            let claims = claim_vector(rng, mix.n_claims, &cid, &name, age);
+            let mut claims = claim_vector(rng, mix.n_claims, &cid, &name, age);
+            if mix.zero_ssn && mix.n_claims > 3 {
+                claims[3] = ScalarClaim::from(Scalar::ZERO).into();
+            }
             // a second credential so that the registry has history
             let bundle = issuer.sign_credential(&claims).expect("sign");
             publics.push(bundle.issuer.clone());
